@@ -213,7 +213,8 @@ def vol_refuse_before_create(F, S):
     req_calls = [VOL + "::PrepareHeader", AR + "ArchiveFile::VerifySortedContainerHasNoDuplicateNames"]
     for q in req_calls:
         inst = "%s::CreateArchive#before-create:%s" % (VOL, q.split("::")[-1])
-        if ("ev", "called", q) in evs:
+        from ..rules_valid import validated
+        if ("ev", "called", q) in evs or (q.endswith("VerifySortedContainerHasNoDuplicateNames") and validated(F, wv, evs, q)):
             out.append(ok("R-ORDER", inst, wv.loc(fw[0]["id"]), wv.qn, "%s (all its refusals) completes before the output file is created" % q.split("::")[-1],
                           "call dominates the FileWriter construction"))
         else:
